@@ -76,6 +76,45 @@ static void verify(const resolvo::Vector<T>& v, const std::vector<typename Elem<
         if (!Elem<T>::eq(v.at(i), s[i])) fail(std::string(what) + ": at(" + std::to_string(i) + ")");
 }
 
+// A single-pass input iterator (the category of std::istream_iterator): copies share the source,
+// advancing any copy consumes it for all.
+template <typename T>
+struct OnePassSrc {
+    std::vector<uint32_t> keys;
+    size_t pos = 0;
+};
+template <typename T>
+struct OnePassIt {
+    using iterator_category = std::input_iterator_tag;
+    using value_type = T;
+    using difference_type = std::ptrdiff_t;
+    using pointer = const T*;
+    using reference = T;
+    OnePassSrc<T>* src = nullptr;  // nullptr = end of range
+    uint32_t cur = 0;
+    OnePassIt() = default;
+    explicit OnePassIt(OnePassSrc<T>* s) : src(s) { advance(); }
+    void advance() {
+        if (src && src->pos < src->keys.size())
+            cur = src->keys[src->pos++];
+        else
+            src = nullptr;
+    }
+    T operator*() const { return Elem<T>::make(cur); }
+    OnePassIt& operator++() {
+        advance();
+        return *this;
+    }
+    OnePassIt operator++(int) {
+        OnePassIt t = *this;
+        advance();
+        return t;
+    }
+    bool operator==(const OnePassIt& o) const { return src == o.src; }
+    bool operator!=(const OnePassIt& o) const { return src != o.src; }
+};
+static uint64_t one_pass_ranges = 0;
+
 template <typename T>
 static void run_vec(uint64_t nops, const char* tname) {
     using S = typename Elem<T>::S;
@@ -85,7 +124,7 @@ static void run_vec(uint64_t nops, const char* tname) {
     for (uint64_t op = 0; op < nops; ++op) {
         ops_done++;
         int i = (int)below(K), j = (int)below(K);
-        switch (below(allow_alias ? 18 : 16)) {  // "alias" adds v.push_back(v[k]) and v.push_back(std::move(v[k]))
+        switch (below(allow_alias ? 19 : 16)) {  // "alias" adds v.push_back(v[k]) and v.push_back(std::move(v[k]))
             case 0:
                 rv[i] = resolvo::Vector<T>();
                 sv[i].clear();
@@ -215,6 +254,21 @@ static void run_vec(uint64_t nops, const char* tname) {
                     sv[i].push_back(x);
                 }
                 break;
+            case 18: {
+                // range constructor fed by a single-pass input iterator
+                OnePassSrc<T> src;
+                std::vector<S> ssrc;
+                size_t n = (size_t)below(9);
+                for (size_t k = 0; k < n; ++k) {
+                    uint32_t x = (uint32_t)below(1000);
+                    src.keys.push_back(x);
+                    ssrc.push_back(Elem<T>::shadow(x));
+                }
+                rv[i] = resolvo::Vector<T>(OnePassIt<T>(&src), OnePassIt<T>());
+                sv[i] = ssrc;
+                one_pass_ranges++;
+                break;
+            }
             case 17:
                 // element of the vector itself moved into push_back (std::vector guarantees this);
                 // the moved-from element is given a fresh value afterwards
@@ -341,6 +395,6 @@ int main(int argc, char** argv) {
         run_string(nops);
     }
     std::cout << "OK sequences=" << nseq * 4 << " ops=" << ops_done << " checks=" << checks_done << " growths=" << growths
-              << " mutations_through_index=" << shared_mutations << " moved_from_own_element=" << moved_aliases << std::endl;
+              << " mutations_through_index=" << shared_mutations << " moved_from_own_element=" << moved_aliases << " single_pass_ranges=" << one_pass_ranges << std::endl;
     return 0;
 }
